@@ -188,7 +188,11 @@ fn pair_switch<R: HRole>(run: &mut Runner<R>, pair: u64, st: &mut CaseStats) -> 
     }
     let s = run.conn.as_ref().unwrap().verif_state();
     let store_ids: Vec<u64> = run.conn.as_ref().unwrap().get_stored_packets().iter().map(|p| p.packet_id() as u64).collect();
+    // C10: the common script starts a NEW session, which resets every identifier; in every other case the
+    // application gives back what it still holds.  (In half of the C10 cases it keeps them: they must not survive.)
+    let keep = pair == 10 && run.nops % 2 == 0;
     for id in app_held_ids(&s, &store_ids) {
+        if keep { break }
         run.apply(&Op::Release(id), st);
         if run.dead {
             return before;
@@ -416,6 +420,8 @@ fn drive<R: HRole>(rng: &mut Rng, role_n: u64, ver: u64, bias: u64, abuse: bool,
             nops = run.nops + rng.range(4, 30);
             let wv = g.wire_ver;
             if pair == 10 {
+                // an object of role Any may be the other side on its next connection
+                if role_n == 2 && ver != 0 && rng.chance(1, 2) { g.as_client = !g.as_client; }
                 // a new session: clean start, or (client) session not present in the CONNACK
                 if g.as_client {
                     if rng.chance(3, 4) {
@@ -754,6 +760,26 @@ fn local_send<R: HRole>(
                 }
             }
         }
+        // bias 14: a topic with a hand-registered alias, then the same topic without alias in a packet that only
+        // just fits: automatic replacement / mapping swaps the short topic for the 3-byte alias property (+1..2 bytes)
+        if bias == 14 && wv == 5 && qos == 0 && s.topic_alias_send.is_some() && rng.chance(1, 4) {
+            let lim = s.maximum_packet_size_send as usize;
+            if lim >= 16 && lim < 400 {
+                if rng.chance(1, 2) { run.apply(&Op::SetFlag(10, true), st); run.apply(&Op::SetFlag(9, false), st); }
+                let reg: Option<Packet> = v5_0::GenericPublish::<Pid>::builder().topic_name("a").ok()
+                    .and_then(|b| b.qos(Qos::AtMostOnce).props(vec![mqtt::packet::TopicAlias::new(1).unwrap().into()]).build().ok()).map(|x| x.into());
+                if let Some(r) = reg { run.apply(&Op::Send(r), st); }
+                let base: Option<Packet> = v5_0::GenericPublish::<Pid>::builder().topic_name("a").ok()
+                    .and_then(|b| b.qos(Qos::AtMostOnce).payload(vec![0x61u8; 1]).build().ok()).map(|x| x.into());
+                if let Some(b) = base {
+                    let target = lim - rng.below(3) as usize;
+                    let want = (1 + target).saturating_sub(b.size());
+                    let p2 = with_payload_len(&b, want).unwrap_or(b);
+                    run.apply(&Op::Send(p2), st);
+                }
+                return;
+            }
+        }
         if let Some(p) = mk_publish(rng, wv, qos, id, false) {
             // bias 14: sizes right at the peer's Maximum Packet Size (limit-6 .. limit+1)
             let lim = s.maximum_packet_size_send as usize;
@@ -980,9 +1006,65 @@ fn matrix_cell<R: HRole>(role_n: u64, cver: u64, status: u64, as_client: bool, p
     Some(run.line())
 }
 
+/// cells with an exchange IN FLIGHT under the identifier the refused packet carries: a persistent session with
+/// a stored QoS 1/2 PUBLISH (or PUBREL), the transport closed, then a send of the same kind with the same
+/// identifier in the given status.  A refusal may release the identifier but must leave the stored exchange alone.
+fn held_cell<R: HRole>(role_n: u64, cver: u64, as_client: bool, pver: u64, qos: u8, ty: u64, reconnecting: bool, st: &mut CaseStats) -> Option<String> {
+    let version = if cver == 4 { Version::V3_1_1 } else { Version::V5_0 };
+    let mut rng = Rng::new(13);
+    let mut run = Runner::<R>::new(version, role_n, cver);
+    run.out.insert(0, 1);
+    let connect: Packet = if cver == 4 {
+        v3_1_1::Connect::builder().client_id("cid").unwrap().clean_session(false).keep_alive(0u16).build().unwrap().into()
+    } else {
+        v5_0::Connect::builder().client_id("cid").unwrap().clean_start(false).keep_alive(0u16)
+            .props(vec![mqtt::packet::SessionExpiryInterval::new(100).unwrap().into()]).build().unwrap().into()
+    };
+    let connack: Packet = if cver == 4 {
+        v3_1_1::Connack::builder().session_present(false).return_code(ConnectReturnCode::Accepted).build().unwrap().into()
+    } else {
+        v5_0::Connack::builder().session_present(false).reason_code(ConnectReasonCode::Success).build().unwrap().into()
+    };
+    if as_client { run.apply(&Op::Send(connect.clone()), st); run.apply(&Op::Recv(bytes_of(&connack)), st); }
+    else { run.apply(&Op::Recv(bytes_of(&connect)), st); run.apply(&Op::Send(connack.clone()), st); }
+    if run.conn.as_ref().unwrap().verif_state().status as u64 != 2 { return None }
+    run.apply(&Op::Acquire, st);
+    let pid = run.last_acquired.take()?;
+    let first = mk_publish(&mut rng, cver, qos, pid, false)?;
+    run.apply(&Op::Send(first), st);
+    run.apply(&Op::Closed, st);
+    if reconnecting {
+        if as_client { run.apply(&Op::Send(connect.clone()), st); } else { run.apply(&Op::Recv(bytes_of(&connect)), st); }
+    }
+    let p = kind_packet(&mut rng, pver, ty, pid)?;
+    run.apply(&Op::Send(p), st);
+    Some(run.line())
+}
+
 pub fn gen_matrix(out: &mut Vec<String>, st: &mut CaseStats) -> (u64, u64) {
     let mut cells = 0u64;
     let mut unreachable = 0u64;
+    for role_n in 0..3u64 {
+        for cver in [4u64, 5] {
+            let sides: &[bool] = match role_n { 0 => &[true], 1 => &[false], _ => &[true, false] };
+            for as_client in sides {
+                for pver in [4u64, 5] {
+                    for qos in [1u8, 2] {
+                        for ty in [3u64, 6, 8, 10] {
+                            for reconnecting in [false, true] {
+                                let line = match role_n {
+                                    0 => held_cell::<role::Client>(role_n, cver, *as_client, pver, qos, ty, reconnecting, st),
+                                    1 => held_cell::<role::Server>(role_n, cver, *as_client, pver, qos, ty, reconnecting, st),
+                                    _ => held_cell::<role::Any>(role_n, cver, *as_client, pver, qos, ty, reconnecting, st),
+                                };
+                                match line { Some(l) => { cells += 1; out.push(l) } None => unreachable += 1 }
+                            }
+                        }
+                    }
+                }
+            }
+        }
+    }
     for role_n in 0..3u64 {
         for cver in [4u64, 5, 0] {
             for status in 0..3u64 {
